@@ -160,6 +160,245 @@ fn scenario(name: &str, n: usize) -> Vec<u8> {
     o
 }
 
+/// The catalogue under the interpreter: one entry per collection-producing (or folding) geo
+/// algorithm, on inputs just above the sizes at which code typically "goes parallel" (64-300
+/// members / points / vertices).  `catalogue <threads> <n> [first..last]` runs the entries under a
+/// 1-thread pool and under a `threads`-thread pool of the REAL rayon-core; a race INSIDE jobs
+/// (check-then-act on an atomic, a lock-protected accumulator whose update order matters) that the
+/// job-granular `sched` engine cannot reach shows here as a per-entry difference.
+fn lcg(s: &mut u64) -> f64 {
+    *s = s.wrapping_mul(6364136223846793005).wrapping_add(1442695040888963407);
+    ((*s >> 11) as f64) / ((1u64 << 53) as f64)
+}
+
+const CATALOGUE: &[&str] = &[
+    "hulls", "concave_hull", "knn_hull", "simplify", "simplify_vw", "outliers", "earcut_stitch", "delaunay", "relate_valid", "folds",
+    "densify_chaikin", "closest_distances", "interior_monotone", "sweep", "bool_ops", "unary_union", "rotated_extremes", "geodesic", "transforms", "collection",
+];
+
+fn catalogue_entry(name: &str, n: usize) -> Vec<u8> {
+    use geo::algorithm::line_measures::{Distance, Euclidean, Length};
+    use geo::algorithm::*;
+    let mut o = Vec::new();
+    let mut s = 0x5eed_u64 ^ (name.len() as u64 * 977);
+    // a point cloud with exact ties (a coarse grid part) and a full-mantissa part
+    let cloud: Vec<Point<f64>> = (0..n).map(|i| if i % 3 == 0 { Point::new((i % 17) as f64, (i / 17) as f64) } else { Point::new(lcg(&mut s) * 16.0, lcg(&mut s) * 16.0) }).collect();
+    let mpts = MultiPoint::new(cloud.clone());
+    // a star-shaped ring of n vertices (valid polygon)
+    let ring: Vec<Coord<f64>> = {
+        let mut v: Vec<Coord<f64>> = (0..n)
+            .map(|i| {
+                // rational parametrisation of the circle (no transcendental functions)
+                let t = -1.0 + 2.0 * (i as f64 + 0.5) / n as f64;
+                let (cx, cy) = ((1.0 - t * t) / (1.0 + t * t), 2.0 * t / (1.0 + t * t));
+                let r = 6.0 + 3.0 * lcg(&mut s);
+                Coord { x: 10.0 + r * cx, y: 10.0 + r * cy }
+            })
+            .collect();
+        v.push(Coord { x: 10.0 - 7.0, y: 10.0 });
+        v.push(v[0]);
+        v
+    };
+    let poly = Polygon::new(LineString::new(ring.clone()), vec![]);
+    let line = LineString::new(ring[..ring.len() - 1].to_vec());
+    let many = mp(n);
+    match name {
+        "hulls" => {
+            wpoly(&mut o, &mpts.convex_hull());
+            wpoly(&mut o, &many.convex_hull());
+            let mut c: Vec<Coord<f64>> = cloud.iter().map(|p| p.0).collect();
+            wpoly(&mut o, &Polygon::new(geo::algorithm::convex_hull::quick_hull(&mut c), vec![]));
+            let mut c: Vec<Coord<f64>> = cloud.iter().map(|p| p.0).collect();
+            wpoly(&mut o, &Polygon::new(geo::algorithm::convex_hull::graham_hull(&mut c, true), vec![]));
+        }
+        "concave_hull" => {
+            wpoly(&mut o, &mpts.concave_hull(2.0));
+            wpoly(&mut o, &many.concave_hull(1.0));
+        }
+        "knn_hull" => wpoly(&mut o, &mpts.k_nearest_concave_hull(5)),
+        "simplify" => {
+            wpoly(&mut o, &poly.simplify(0.4));
+            line.simplify_idx(0.4).iter().for_each(|x| o.extend_from_slice(&(*x as u64).to_le_bytes()));
+            wmp(&mut o, &many.simplify(0.1));
+        }
+        "simplify_vw" => {
+            wpoly(&mut o, &poly.simplify_vw(0.4));
+            line.simplify_vw_idx(0.4).iter().for_each(|x| o.extend_from_slice(&(*x as u64).to_le_bytes()));
+            wpoly(&mut o, &poly.simplify_vw_preserve(0.4));
+        }
+        "outliers" => mpts.outliers(6).iter().for_each(|x| w(&mut o, *x)),
+        "earcut_stitch" => {
+            let tris = poly.earcut_triangles();
+            o.extend_from_slice(&(tris.len() as u64).to_le_bytes());
+            tris.iter().for_each(|t| {
+                w(&mut o, t.0.x);
+                w(&mut o, t.1.y);
+                w(&mut o, t.2.x)
+            });
+            let all: Vec<_> = many.0.iter().flat_map(|p| p.earcut_triangles()).chain(tris).collect();
+            if let Ok(m) = all.stitch_triangulation() {
+                wmp(&mut o, &m);
+            }
+        }
+        "delaunay" => {
+            let small = Polygon::new(LineString::new(ring.iter().step_by(3).copied().chain([ring[0]]).collect()), vec![]);
+            for t in geo::TriangulateDelaunay::constrained_triangulation(&small, Default::default()).unwrap_or_default().iter().chain(geo::TriangulateDelaunay::unconstrained_triangulation(&small).unwrap_or_default().iter()) {
+                w(&mut o, t.0.x);
+                w(&mut o, t.1.y);
+                w(&mut o, t.2.x);
+            }
+        }
+        "relate_valid" => {
+            let other = sq(6.0, 6.0, 9.0);
+            o.extend_from_slice(format!("{:?}{:?}", poly.relate(&other), many.relate(&other)).as_bytes());
+            let prep = geo::algorithm::relate::PreparedGeometry::from(&many);
+            o.extend_from_slice(format!("{:?}", prep.relate(&other)).as_bytes());
+            o.push(many.is_valid() as u8);
+            o.push(poly.is_valid() as u8);
+            let overlapping = MultiPolygon::new(many.0.iter().cloned().chain(many.0.iter().map(|p| p.translate(0.2, 0.1))).collect());
+            o.extend_from_slice(format!("{:?}", overlapping.validation_errors()).as_bytes());
+            o.push(many.intersects(&other) as u8);
+            o.push(many.contains(&Point::new(0.2, 0.2)) as u8);
+            o.push(poly.contains(&other) as u8);
+        }
+        "folds" => {
+            w(&mut o, many.unsigned_area());
+            w(&mut o, many.signed_area());
+            w(&mut o, poly.signed_area());
+            for c in [many.centroid(), mpts.centroid(), line.centroid(), poly.centroid()].into_iter().flatten() {
+                w(&mut o, c.x());
+                w(&mut o, c.y());
+            }
+            w(&mut o, Euclidean.length(&line));
+            let mls = MultiLineString::new(many.0.iter().map(|p| p.exterior().clone()).collect());
+            w(&mut o, Euclidean.length(&mls));
+            for r in [many.bounding_rect(), mpts.bounding_rect(), mls.bounding_rect()].into_iter().flatten() {
+                w(&mut o, r.min().x);
+                w(&mut o, r.max().y);
+            }
+            o.extend_from_slice(&(many.coords_count() as u64).to_le_bytes());
+        }
+        "densify_chaikin" => {
+            let d = geo::algorithm::line_measures::Densify::densify(&Euclidean, &line, 0.7);
+            o.extend_from_slice(&(d.0.len() as u64).to_le_bytes());
+            d.0.iter().for_each(|c| w(&mut o, c.x + c.y));
+            let c = line.chaikin_smoothing(2);
+            c.0.iter().for_each(|c| w(&mut o, c.x - c.y));
+            let r = LineString::new(ring.iter().flat_map(|c| [*c, *c]).collect()).remove_repeated_points();
+            o.extend_from_slice(&(r.0.len() as u64).to_le_bytes());
+        }
+        "closest_distances" => {
+            let q = Point::new(3.25, 11.5);
+            for g in [many.closest_point(&q), poly.closest_point(&q), line.closest_point(&q), mpts.closest_point(&q)] {
+                o.extend_from_slice(format!("{:?}", g).as_bytes());
+            }
+            w(&mut o, Euclidean.distance(&many, &sq(400.0, 3.0, 2.0)));
+            w(&mut o, Euclidean.distance(&poly, &sq(40.0, 3.0, 2.0)));
+            w(&mut o, line.hausdorff_distance(&mpts));
+            w(&mut o, line.frechet_distance(&LineString::new(ring.iter().map(|c| Coord { x: c.x + 0.5, y: c.y }).collect())));
+        }
+        "interior_monotone" => {
+            for p in [poly.interior_point(), many.interior_point(), line.interior_point(), mpts.interior_point()].into_iter().flatten() {
+                w(&mut o, p.x());
+                w(&mut o, p.y());
+            }
+            for m in geo::algorithm::monotone::monotone_subdivision([poly.clone()]) {
+                wpoly(&mut o, &m.into_polygon());
+            }
+        }
+        "sweep" => {
+            use geo::algorithm::sweep::Intersections;
+            let mut segs: Vec<geo_types::Line<f64>> = (0..n).map(|i| geo_types::Line::new(Coord { x: (i % 9) as f64, y: (i % 7) as f64 }, Coord { x: ((i * 5) % 11) as f64, y: ((i * 3) % 8) as f64 })).filter(|l| l.start != l.end).collect();
+            segs.truncate(60);
+            segs.push(segs[0]);
+            segs.push(segs[3]);
+            if let Ok(v) = std::panic::catch_unwind(|| Intersections::from_iter(segs.iter().copied()).collect::<Vec<_>>()) {
+                for (a, b, _) in v {
+                    w(&mut o, a.start.x);
+                    w(&mut o, a.end.y);
+                    w(&mut o, b.start.x);
+                    w(&mut o, b.end.y);
+                }
+            } else {
+                o.push(0xee);
+            }
+        }
+        "bool_ops" => {
+            let a = mp(n.min(24));
+            let b = MultiPolygon::new(a.0.iter().map(|p| p.translate(0.3, 0.2)).collect());
+            wmp(&mut o, &a.intersection(&b));
+            wmp(&mut o, &a.xor(&b));
+            wmp(&mut o, &poly.difference(&sq(6.0, 6.0, 5.0)));
+            let clipped = poly.clip(&MultiLineString::new(vec![LineString::new(vec![Coord { x: 0.0, y: 9.7 }, Coord { x: 30.0, y: 11.1 }])]), false);
+            clipped.0.iter().flat_map(|l| l.0.iter()).for_each(|c| w(&mut o, c.x));
+        }
+        "unary_union" => {
+            let shifted: Vec<Polygon<f64>> = many.0.iter().flat_map(|p| [p.clone(), p.translate(0.31, 0.17)]).collect();
+            wmp(&mut o, &geo::algorithm::bool_ops::unary_union(shifted.iter()));
+        }
+        "rotated_extremes" => {
+            if let Some(r) = mpts.minimum_rotated_rect() {
+                wpoly(&mut o, &r);
+            }
+            if let Some(e) = poly.extremes() {
+                w(&mut o, e.x_min.coord.x);
+                w(&mut o, e.y_max.coord.y);
+            }
+            o.extend_from_slice(format!("{:?}", poly.coordinate_position(&Coord { x: 10.0, y: 10.0 })).as_bytes());
+            o.extend_from_slice(format!("{:?}", many.coordinate_position(&Coord { x: 0.25, y: 0.25 })).as_bytes());
+        }
+        "geodesic" => {
+            use geo::algorithm::line_measures::{Geodesic, Haversine, Rhumb};
+            let ll = LineString::new(ring.iter().map(|c| Coord { x: c.x * 3.0 - 30.0, y: c.y * 2.0 - 20.0 }).collect());
+            w(&mut o, Haversine.length(&ll));
+            w(&mut o, Geodesic.length(&ll));
+            w(&mut o, Rhumb.length(&ll));
+            let llp = MultiPolygon::new(many.0.iter().map(|p| p.map_coords(|c| Coord { x: c.x * 0.1 - 30.0, y: c.y * 0.1 + 10.0 })).collect());
+            w(&mut o, llp.geodesic_area_signed());
+            w(&mut o, llp.geodesic_perimeter());
+            w(&mut o, llp.chamberlain_duquette_unsigned_area());
+        }
+        "transforms" => {
+            wmp(&mut o, &many.rotate_around_centroid(30.0));
+            wmp(&mut o, &many.scale(1.5));
+            wmp(&mut o, &many.affine_transform(&AffineTransform::new(1.0, 0.5, 2.0, -0.25, 1.0, 3.0)));
+            let mut m2 = many.clone();
+            m2.map_coords_in_place(|c| Coord { x: c.y, y: c.x });
+            wmp(&mut o, &m2);
+            wmp(&mut o, &many.orient(geo::algorithm::orient::Direction::Reversed));
+            many.lines_iter().take(500).for_each(|l| w(&mut o, l.start.x));
+        }
+        "collection" => {
+            let gc = geo_types::GeometryCollection::new_from(vec![
+                geo_types::Geometry::MultiPolygon(mp(n.min(80))),
+                geo_types::Geometry::LineString(line.clone()),
+                geo_types::Geometry::MultiPoint(mpts.clone()),
+                geo_types::Geometry::Polygon(poly.clone()),
+            ]);
+            w(&mut o, gc.unsigned_area());
+            if let Some(c) = gc.centroid() {
+                w(&mut o, c.x());
+                w(&mut o, c.y());
+            }
+            if let Some(r) = gc.bounding_rect() {
+                w(&mut o, r.min().x);
+                w(&mut o, r.max().y);
+            }
+            wpoly(&mut o, &gc.convex_hull());
+            o.extend_from_slice(format!("{:?}", gc.closest_point(&Point::new(40.0, 2.0))).as_bytes());
+            o.extend_from_slice(format!("{:?}{:?}", gc.dimensions(), gc.boundary_dimensions()).as_bytes());
+            if let Some(p) = gc.interior_point() {
+                w(&mut o, p.x());
+            }
+        }
+        _ => {
+            eprintln!("unknown catalogue entry {name}");
+            std::process::exit(2);
+        }
+    }
+    o
+}
+
 /// A battery of sequential geo algorithms on one caller's input (used by `two_callers`).  Every
 /// operation is a separate step so that the callers can be lined up, step by step, with a barrier:
 /// both are then inside the SAME library function at the same time, on different inputs of equal
@@ -257,6 +496,30 @@ fn main() {
             std::process::exit(1);
         }
         println!("EQUAL scenario=two_callers threads={callers} len={}", alone[0].len());
+        return;
+    }
+    if av.get(1).map(|s| s.as_str()) == Some("catalogue") {
+        let threads: usize = av.get(2).and_then(|s| s.parse().ok()).unwrap_or(3);
+        let n: usize = av.get(3).and_then(|s| s.parse().ok()).unwrap_or(96);
+        let (first, last) = av.get(4).and_then(|s| s.split_once("..")).map(|(a, b)| (a.parse().unwrap_or(0), b.parse().unwrap_or(CATALOGUE.len()))).unwrap_or((0, CATALOGUE.len()));
+        let entries = &CATALOGUE[first.min(CATALOGUE.len())..last.min(CATALOGUE.len())];
+        let p1 = rayon::ThreadPoolBuilder::new().num_threads(1).build().unwrap();
+        let pn = rayon::ThreadPoolBuilder::new().num_threads(threads).build().unwrap();
+        let mut bad = vec![];
+        let mut total = 0usize;
+        for e in entries {
+            let reference = p1.install(|| catalogue_entry(e, n));
+            let got = pn.install(|| catalogue_entry(e, n));
+            total += got.len();
+            if got != reference {
+                bad.push(*e);
+            }
+        }
+        if !bad.is_empty() {
+            println!("DIFFERS scenario=catalogue threads={threads} n={n} entries={first}..{last} differing={}", bad.join(","));
+            std::process::exit(1);
+        }
+        println!("EQUAL scenario=catalogue threads={threads} n={n} entries={first}..{last} len={total}");
         return;
     }
     let name = av.get(1).map(|s| s.as_str()).unwrap_or("par_iter_multipolygon");
